@@ -251,6 +251,7 @@ func TestVerifReplayConverge(t *testing.T) {
 		"ruling intent orphaned":                                                          {{name: "A", prio: 10, json: ifA}, {name: "B", prio: 20, json: ifTwo}, {name: "A", prio: 10, json: "", orphan: true}},
 		"shadowed intent orphaned":                                                        {{name: "A", prio: 30, json: ifA}, {name: "B", prio: 20, json: ifTwo}, {name: "A", prio: 30, json: "", orphan: true}},
 		"the only intent orphaned":                                                        {{name: "A", prio: 10, json: ifTwo}, {name: "A", prio: 10, json: "", orphan: true}},
+		"the device holds a case on its own, an intent sets the other case":               {{device: true, json: case1}, {name: "A", prio: 10, json: case2}},
 		"a value the device held on its own is overwritten, the transaction is cancelled": {{device: true, json: ifA}, {name: "A", prio: 10, json: ifB, cancel: true}},
 		"a stronger intent takes the choice over, the transaction is cancelled":           {{name: "O2", prio: 10, json: case1}, {name: "O1", prio: 5, json: case2, cancel: true}},
 		"delete request that carries updates":                                             {{name: "A", prio: 10, json: ifA}, {name: "B", prio: 20, json: pattern}, {name: "A", prio: 10, json: "", carries: ifTwo}},
@@ -630,6 +631,18 @@ func TestVerifReplayConverge(t *testing.T) {
 				}
 				if fn != fnLL {
 					fmt.Printf("REPLAY-FAIL fn=%s clause=%s input=%s why=device differs from the merge of the live intents: %s\n", fnLL, clause, in, strings.Join(diffs, "; "))
+				}
+			}
+			// C08: whoever held the former case, the device is not left with two cases of the choice
+			{
+				c1, c2 := false, false
+				for p := range device {
+					c1 = c1 || strings.HasPrefix(p, "choices/case1/")
+					c2 = c2 || strings.HasPrefix(p, "choices/case2/")
+				}
+				if c1 && c2 && unmanaged {
+					// recorded finding: a former case that only the device holds is not recognised as the former ruler
+					fmt.Printf("REPLAY-FAIL fn=%s clause=a_case_only_the_device_holds_is_replaced.known input=%s why=the device holds members of case1 and of case2\n", "(*tree.sharedEntryAttributes).populateChoiceCaseResolvers", in)
 				}
 			}
 			// C02: intended store content
